@@ -6,7 +6,7 @@ git checkout -q -- sigpyproc
 export PYTHONPATH=$WT:$WT/_seed/_meta
 git apply $CH/patch.diff || { echo "APPLY-FAILED"; exit 2; }
 /venv/bin/python $CH/demo.py > $CH/confirm_with.log 2>&1; W=$?
-/venv/bin/python -m pytest -q -p no:cacheprovider --timeout=900 -q 2>&1 | tail -3 > $CH/confirm_suite.log
+/venv/bin/python -m pytest -q -p no:cacheprovider --timeout=900 2>&1 | tail -4 > $CH/confirm_suite.log
 git checkout -q -- sigpyproc
 /venv/bin/python $CH/demo.py > $CH/confirm_without.log 2>&1; WO=$?
 echo "demo_with_exit=$W demo_without_exit=$WO suite: $(tail -1 $CH/confirm_suite.log)"
